@@ -1,4 +1,7 @@
-(** C05 proofs about the signing bytes (model: Evm/SignBytes.v, encoder: Base/Abi.v). *)
+(** C05 proofs about the signing bytes (model: Evm/SignBytes.v, encoder: Base/Abi.v).
+    keccak is a Section variable: nothing is assumed about it except that its output has 32
+    bytes (true of Keccak-256; needed because the checkpoint hash is copied into a bytes32).
+    Collision resistance is never assumed: conclusions carry [keccak_collision]. *)
 From Coq Require Import List ZArith Bool Lia.
 From Coq Require Import Strings.Byte.
 From Paloma Require Import Base.Abi Base.AbiProofs Evm.SignFields Evm.SignBytes.
@@ -6,8 +9,13 @@ From Paloma Require Gen.C05.
 Import ListNotations.
 Open Scope Z_scope.
 
+(** ---- field sets ---- *)
+
 Lemma field_eqb_eq : forall a b, field_eqb a b = true <-> a = b.
-Proof. intros a b; split; [destruct a, b; simpl; intros H; try discriminate; reflexivity | intros ->; destruct b; reflexivity]. Qed.
+Proof.
+  intros a b; split; [destruct a, b; simpl; intros H; try discriminate; reflexivity
+                     | intros ->; destruct b; reflexivity].
+Qed.
 
 Lemma mem_In : forall f l, mem f l = true <-> In f l.
 Proof.
@@ -27,3 +35,471 @@ Qed.
 Lemma delivered_subset_signed_all : forall k, via_bridge_contract k = true ->
   incl (delivered_fields k) (bound_fields k).
 Proof. intros k Hk. apply subset_incl. destruct k; try discriminate Hk; vm_compute; reflexivity. Qed.
+
+Lemma id_bound_where_scheme_has_it : forall k, scheme_has_id k = true -> In FTurnstoneId (bound_fields k).
+Proof. intros k Hk. apply mem_In. destruct k; try discriminate Hk; vm_compute; reflexivity. Qed.
+
+Lemma checkpoint_not_bound : forall k, ~ In FCheckpoint (bound_fields k) \/ k = KUpdateValset.
+Proof.
+  intros k. destruct k; try (now right); left; intros H; apply mem_In in H; vm_compute in H; discriminate.
+Qed.
+
+(** The model's slot types are the generated signature (abi.NewType strings of the source). *)
+Lemma signature_matches : forall k, map slot_ty (signed_slots k) = signature k.
+Proof. destruct k; vm_compute; reflexivity. Qed.
+Lemma checkpoint_signature_matches : map slot_ty Gen.C05.checkpoint_signed = Gen.C05.checkpoint_sig.
+Proof. vm_compute; reflexivity. Qed.
+
+(** ---- number facts ---- *)
+Lemma two63_pos : 0 < two63. Proof. reflexivity. Qed.
+Lemma two64_eq : two64 = 2 * two63. Proof. reflexivity. Qed.
+Lemma two64_lt : two64 < two256. Proof. reflexivity. Qed.
+Lemma two160_lt : two160 < two256. Proof. reflexivity. Qed.
+Lemma defaults_small : 0 <= Gen.C05.default_estimate < two256 /\ 0 <= Gen.C05.batch_default_estimate < two256 /\
+  0 <= Gen.C05.default_relayer_fee < two256 /\ 0 <= Gen.C05.default_community_fee < two256 /\
+  0 <= Gen.C05.default_security_fee < two256.
+Proof. vm_compute. repeat split; discriminate. Qed.
+
+Lemma u256_small : forall z, 0 <= z < two256 -> u256 z = z.
+Proof. intros z H. unfold u256. now apply Z.mod_small. Qed.
+
+Lemma u256_neg : forall z, - two256 <= z < 0 -> u256 z = z + two256.
+Proof.
+  intros z H. unfold u256. rewrite <- (Z_mod_plus_full z 1 two256). apply Z.mod_small. lia.
+Qed.
+
+Lemma u256_int64_inj : forall a b, int64 a -> int64 b -> u256 a = u256 b -> a = b.
+Proof.
+  intros a b Ha Hb E. unfold int64 in *.
+  pose proof two63_pos. pose proof two64_eq. pose proof two64_lt.
+  destruct (Z_lt_le_dec a 0), (Z_lt_le_dec b 0).
+  - rewrite !u256_neg in E by lia. lia.
+  - rewrite u256_neg in E by lia. rewrite (u256_small b) in E by lia. lia.
+  - rewrite (u256_small a) in E by lia. rewrite u256_neg in E by lia. lia.
+  - rewrite !u256_small in E by lia. lia.
+Qed.
+
+Lemma i64_range : forall u, u64 u -> int64 (i64 u).
+Proof.
+  intros u H. unfold u64, int64, i64 in *. pose proof two63_pos. pose proof two64_eq.
+  destruct (u <? two63) eqn:E; [apply Z.ltb_lt in E | apply Z.ltb_ge in E]; lia.
+Qed.
+
+Lemma i64_inj : forall a b, u64 a -> u64 b -> i64 a = i64 b -> a = b.
+Proof.
+  intros a b Ha Hb E. unfold u64, i64 in *. pose proof two63_pos. pose proof two64_eq.
+  destruct (a <? two63) eqn:Ea; destruct (b <? two63) eqn:Eb;
+    try apply Z.ltb_lt in Ea; try apply Z.ltb_ge in Ea; try apply Z.ltb_lt in Eb; try apply Z.ltb_ge in Eb; lia.
+Qed.
+
+(** the word holding int64(x) of a uint64 x determines x *)
+Lemma wordv_i64_inj : forall a b, u64 a -> u64 b -> wordv (i64 a) = wordv (i64 b) -> a = b.
+Proof.
+  intros a b Ha Hb E. injection E as E. apply i64_inj; try assumption.
+  apply u256_int64_inj; [now apply i64_range | now apply i64_range | exact E].
+Qed.
+
+Lemma wordv_int64_inj : forall a b, int64 a -> int64 b -> wordv a = wordv b -> a = b.
+Proof. intros a b Ha Hb E. injection E as E. now apply u256_int64_inj. Qed.
+
+(** ---- typing of field values ---- *)
+
+Lemma typed_wordv : forall z, typed TWord (wordv z).
+Proof. intros z. apply u256_range. Qed.
+
+Lemma pow256_mono : forall n, (n <= 32)%nat -> 256 ^ Z.of_nat n <= two256.
+Proof.
+  intros n H. rewrite two256_eq. apply Z.pow_le_mono_r; lia.
+Qed.
+
+Lemma bytes32_left_range : forall s, (length s <= 32)%nat -> 0 <= bytes32_left s < two256.
+Proof.
+  intros s H. unfold bytes32_left. pose proof (be_val_range s). pose proof (pow256_mono _ H). lia.
+Qed.
+
+Lemma bytes32_right_range : forall b, 0 <= bytes32_right b < two256.
+Proof.
+  intros b. unfold bytes32_right.
+  set (c := firstn 32 b).
+  assert (Hc : (length c <= 32)%nat) by (unfold c; apply firstn_le_length).
+  pose proof (be_val_range (c ++ zeros (32 - length c))) as H.
+  rewrite app_length in H. unfold zeros in H. rewrite repeat_length in H.
+  replace (length c + (32 - length c))%nat with 32%nat in H by lia.
+  rewrite <- two256_eq in H. exact H.
+Qed.
+
+Lemma typed_words : forall (P : Z -> Prop) l, (forall z, P z -> 0 <= z < two256) -> Forall P l -> small (length l) ->
+  typed (TArr TWord) (VArr (map VWord l)).
+Proof.
+  intros P l HP H Hs. apply typed_arr. rewrite map_length. split; [exact Hs|].
+  clear Hs. induction H as [|z r Hz Hr IH]; simpl; constructor; [now apply HP | exact IH].
+Qed.
+
+Lemma typed_wordvs : forall (g : Z -> Z) l, small (length l) -> typed (TArr TWord) (VArr (map (fun p => wordv (g p)) l)).
+Proof.
+  intros g l Hs. apply typed_arr. rewrite map_length. split; [exact Hs|].
+  clear Hs. induction l as [|z r IH]; simpl; constructor; [apply typed_wordv | exact IH].
+Qed.
+
+Lemma small_0 : small 0.
+Proof. unfold small. reflexivity. Qed.
+
+Lemma addr_word : forall z, addr z -> 0 <= z < two256.
+Proof. intros z H. unfold addr in H. pose proof two160_lt. lia. Qed.
+Lemma u64_word : forall z, u64 z -> 0 <= z < two256.
+Proof. intros z H. unfold u64 in H. pose proof two64_lt. lia. Qed.
+
+Lemma eff_fees_ok : forall fs, wf_fees fs ->
+  0 <= f_relayer (eff_fees fs) < two256 /\ 0 <= f_community (eff_fees fs) < two256 /\ 0 <= f_security (eff_fees fs) < two256.
+Proof.
+  intros [f|] H; simpl in *.
+  - destruct H as [A [B C]]. repeat split; try (apply u64_word; assumption).
+  - pose proof defaults_small. unfold default_fees; simpl. tauto.
+Qed.
+
+Lemma act_fees_ok : forall a, wf_action a ->
+  0 <= f_relayer (act_fees a) < two256 /\ 0 <= f_community (act_fees a) < two256 /\ 0 <= f_security (act_fees a) < two256.
+Proof.
+  intros a H. destruct a; simpl in *; try (apply (eff_fees_ok None I)); apply eff_fees_ok; tauto.
+Qed.
+
+Lemma act_sender_ok : forall a, wf_action a -> (length (act_sender a) <= 32)%nat.
+Proof. intros a H. destruct a; simpl in *; try lia; tauto. Qed.
+
+Lemma eff_estimate_ok : forall k e, u64 e -> 0 <= eff_estimate k e < two256.
+Proof.
+  intros k e H. unfold eff_estimate. pose proof defaults_small.
+  destruct (e =? 0); [destruct k; tauto | now apply u64_word].
+Qed.
+
+Lemma typed_calls : forall cs, Forall (fun c => addr (fst c) /\ small (length (snd c))) cs -> small (length cs) ->
+  typed (TArr (TTuple [TWord; TBytes])) (VArr (map call_val cs)).
+Proof.
+  intros cs H Hs. apply typed_arr. rewrite map_length. split; [exact Hs|].
+  clear Hs. induction H as [|c r [Ha Hp] Hr IH]; simpl; constructor; [| exact IH].
+  split; [now apply addr_word | split; [exact Hp | exact I]].
+Qed.
+
+Lemma field_value_typed : forall cp it f, wf it -> 0 <= cp < two256 ->
+  typed (field_ty f) (field_value cp it f).
+Proof.
+  intros cp it f [Hid [Hest [Hrel Ha]]] Hcp.
+  pose proof (act_fees_ok _ Ha) as [F1 [F2 F3]].
+  pose proof (act_sender_ok _ Ha) as Hs.
+  destruct f; cbn [field_ty field_value];
+    try apply typed_wordv;
+    try (now apply addr_word);
+    try (now apply eff_estimate_ok);
+    try apply bytes32_right_range;
+    try (now apply bytes32_left_range);
+    try assumption.
+  - (* FContract *) destruct (it_action it); simpl in Ha |- *; try (split; [reflexivity | reflexivity]). apply addr_word; tauto.
+  - (* FPayload *) destruct (it_action it); simpl in Ha |- *; try apply small_0. tauto.
+  - (* FValidators *) destruct (it_action it); simpl in Ha; try (apply (typed_words addr []); [apply addr_word | constructor | apply small_0]).
+    apply (typed_words addr); [apply addr_word | tauto | tauto].
+  - (* FPowers *) destruct (it_action it); simpl in Ha; try (apply (typed_wordvs i64 []); apply small_0).
+    apply typed_wordvs. tauto.
+  - (* FDeployer *) destruct (it_action it); simpl in Ha |- *; try (split; [reflexivity | reflexivity]). apply addr_word; tauto.
+  - (* FBytecode *) destruct (it_action it); simpl in Ha |- *; try apply small_0; tauto.
+  - (* FCalls *) destruct (it_action it); simpl in Ha; try (apply (typed_calls []); [constructor | apply small_0]).
+    apply typed_calls; tauto.
+  - (* FToken *) destruct (it_action it); simpl in Ha |- *; try (split; [reflexivity | reflexivity]). apply addr_word; tauto.
+  - (* FReceivers *) destruct (it_action it); simpl in Ha; try (apply (typed_words addr []); [apply addr_word | constructor | apply small_0]).
+    apply (typed_words addr); [apply addr_word | tauto | tauto].
+  - (* FAmounts *) destruct (it_action it); simpl in Ha; try (apply (typed_words addr []); [apply addr_word | constructor | apply small_0]).
+    apply (typed_words (fun x => 0 <= x < two256)); [tauto | tauto | tauto].
+Qed.
+
+(** ---- slots ---- *)
+
+Fixpoint slot_ind' (P : slot -> Prop) (HF : forall f, P (SF f)) (HT : forall l, Forall P l -> P (ST l)) (s : slot) : P s :=
+  match s with
+  | SF f => HF f
+  | ST l => HT l ((fix go (l : list slot) : Forall P l :=
+                     match l with [] => Forall_nil P | x :: r => Forall_cons x (slot_ind' P HF HT x) (go r) end) l)
+  end.
+
+Lemma slot_typed : forall cp it s, wf it -> 0 <= cp < two256 -> typed (slot_ty s) (slot_val cp it s).
+Proof.
+  intros cp it s Hw Hcp. induction s as [f | l IH] using slot_ind'.
+  - now apply field_value_typed.
+  - cbn [slot_ty slot_val]. apply typed_tuple.
+    induction IH as [|x r Hx Hr IHr]; simpl; constructor; assumption.
+Qed.
+
+Lemma slots_typed : forall cp it l, wf it -> 0 <= cp < two256 ->
+  Forall2 typed (map slot_ty l) (map (slot_val cp it) l).
+Proof.
+  intros cp it l Hw Hcp. induction l as [|s r IH]; simpl; constructor; [now apply slot_typed | exact IH].
+Qed.
+
+(** equal slot values = equal field values at every leaf *)
+Lemma slot_val_fields : forall cp it cp' it' s, slot_val cp it s = slot_val cp' it' s ->
+  forall f, In f (flatten s) -> field_value cp it f = field_value cp' it' f.
+Proof.
+  intros cp it cp' it' s. induction s as [f | l IH] using slot_ind'; intros E g Hg.
+  - simpl in Hg. destruct Hg as [<- | []]. exact E.
+  - cbn [slot_val] in E. injection E as E. cbn [flatten] in Hg.
+    revert E g Hg. induction IH as [|x r Hx Hr IHr]; intros E g Hg; [contradiction|].
+    simpl in E. injection E as E1 E2. simpl in Hg. apply in_app_or in Hg. destruct Hg as [Hg | Hg].
+    + now apply Hx.
+    + now apply IHr.
+Qed.
+
+Lemma slots_val_fields : forall cp it cp' it' l, map (slot_val cp it) l = map (slot_val cp' it') l ->
+  forall f, In f (flatten_all l) -> field_value cp it f = field_value cp' it' f.
+Proof.
+  intros cp it cp' it' l. induction l as [|s r IH]; intros E f Hf; [contradiction|].
+  simpl in E. injection E as E1 E2. unfold flatten_all in Hf. simpl in Hf. apply in_app_or in Hf.
+  destruct Hf as [Hf | Hf]; [now apply (slot_val_fields cp it cp' it' s) | now apply IH].
+Qed.
+
+(** selector ++ ABI encoding determines every field in a slot *)
+Lemma packed_binds : forall sel slots cp it cp' it', wf it -> wf it' -> 0 <= cp < two256 -> 0 <= cp' < two256 ->
+  packed sel slots cp it = packed sel slots cp' it' ->
+  forall f, In f (flatten_all slots) -> field_value cp it f = field_value cp' it' f.
+Proof.
+  intros sel slots cp it cp' it' Hw Hw' Hc Hc' E. unfold packed in E.
+  apply app_eq_len in E; [| reflexivity]. destruct E as [_ E].
+  apply (enc_args_injective (map slot_ty slots)) in E; [| now apply slots_typed | now apply slots_typed].
+  now apply slots_val_fields.
+Qed.
+
+Lemma field_value_cp_irrel : forall cp cp' it f, f <> FCheckpoint -> field_value cp it f = field_value cp' it f.
+Proof. intros cp cp' it f H. destruct f; try reflexivity. contradiction. Qed.
+
+(** The value the model puts in the slot of field [f] ([f] other than the inner hash). *)
+Definition fval (it : item) (f : field) : abival := field_value 0 it f.
+
+(** ---- round trip be / be_val on fixed length (for the 32-byte hash) ---- *)
+Lemma be_be_val : forall l, be (length l) (be_val l) = l.
+Proof.
+  induction l as [|b r IH] using rev_ind; [reflexivity|].
+  rewrite app_length. simpl length. replace (length r + 1)%nat with (S (length r)) by lia.
+  rewrite be_snoc, be_val_snoc. pose proof (Z_of_byte_range b) as Hb.
+  replace ((be_val r * 256 + Z_of_byte b) / 256) with (be_val r).
+  - rewrite IH. f_equal. f_equal.
+    rewrite <- (byte_of_Z_of_byte b) at 2. unfold byte_of_Z.
+    replace ((be_val r * 256 + Z_of_byte b) mod 256) with (Z_of_byte b mod 256); [reflexivity|].
+    rewrite Z.add_comm, Z_mod_plus_full. reflexivity.
+  - rewrite Z.add_comm, Z.div_add by lia. rewrite Z.div_small by lia. lia.
+Qed.
+
+Lemma be_val_inj_len : forall a b, length a = length b -> be_val a = be_val b -> a = b.
+Proof. intros a b Hl E. rewrite <- (be_be_val a), <- (be_be_val b). now rewrite Hl, E. Qed.
+
+Lemma bytes32_right_inj32 : forall a b, length a = 32%nat -> length b = 32%nat -> bytes32_right a = bytes32_right b -> a = b.
+Proof.
+  intros a b Ha Hb E. unfold bytes32_right in E.
+  rewrite !firstn_all2 in E by lia. rewrite Ha, Hb in E. simpl in E. rewrite !app_nil_r in E.
+  apply be_val_inj_len; [lia | exact E].
+Qed.
+
+Lemma bytes_eq_dec : forall a b : list byte, {a = b} + {a <> b}.
+Proof. apply list_eq_dec. apply Byte.byte_eq_dec. Qed.
+
+Section Binding.
+  Variable keccak : list byte -> list byte.
+  Hypothesis keccak_len : forall x, length (keccak x) = 32%nat.
+
+  Lemma keccak_eq : forall x y, keccak x = keccak y -> x = y \/ keccak_collision keccak.
+  Proof.
+    intros x y E. destruct (bytes_eq_dec x y) as [H | H]; [now left | right]. now exists x, y.
+  Qed.
+
+  Lemma checkpoint_hash_range : forall it, 0 <= checkpoint_hash keccak it < two256.
+  Proof. intros it. apply bytes32_right_range. Qed.
+
+  (** Equal signing bytes: every field in a slot of the pre-image (for a valset update also every
+      field inside the inner checkpoint) has the same ABI value in both items -- or keccak collides. *)
+  Theorem signbytes_bind_signed_fields_all : forall it it', wf it -> wf it' ->
+    kind_of it = kind_of it' -> via_bridge_contract (kind_of it) = true ->
+    sign_bytes keccak it = sign_bytes keccak it' ->
+    (forall f, In f (bound_fields (kind_of it)) -> fval it f = fval it' f) \/ keccak_collision keccak.
+  Proof.
+    intros it it' Hw Hw' Hk Hv E. unfold sign_bytes in E.
+    apply keccak_eq in E. destruct E as [E | C]; [| now right].
+    unfold sign_preimage, outer_preimage in E. rewrite <- Hk in E.
+    pose proof (checkpoint_hash_range it) as Hc. pose proof (checkpoint_hash_range it') as Hc'.
+    destruct (kind_of it) eqn:K; try discriminate Hv.
+    - (* valset: outer then inner *)
+      pose proof (packed_binds _ _ _ _ _ _ Hw Hw' Hc Hc' E) as B.
+      assert (Hcp : checkpoint_hash keccak it = checkpoint_hash keccak it').
+      { assert (In FCheckpoint (flatten_all (signed_slots KUpdateValset))) as I1 by (apply mem_In; vm_compute; reflexivity).
+        specialize (B FCheckpoint I1). cbn [field_value] in B. now injection B. }
+      unfold checkpoint_hash in Hcp. apply bytes32_right_inj32 in Hcp; try apply keccak_len.
+      apply keccak_eq in Hcp. destruct Hcp as [Hin | C]; [| now right]. left.
+      unfold checkpoint_preimage in Hin.
+      assert (Z0 : 0 <= 0 < two256) by (split; [lia | reflexivity]).
+      pose proof (packed_binds _ _ _ _ _ _ Hw Hw' Z0 Z0 Hin) as B2.
+      intros f Hf. unfold bound_fields in Hf. apply in_app_or in Hf. destruct Hf as [Hf | Hf].
+      + now apply B2.
+      + apply filter_In in Hf. destruct Hf as [Hf Hn]. unfold fval.
+        assert (f <> FCheckpoint) as Hne.
+        { intros ->. simpl in Hn. discriminate. }
+        rewrite (field_value_cp_irrel 0 (checkpoint_hash keccak it) it f Hne).
+        rewrite (field_value_cp_irrel 0 (checkpoint_hash keccak it') it' f Hne). now apply B.
+    - left. intros f Hf. unfold fval.
+      assert (f <> FCheckpoint) as Hne by (intros ->; apply mem_In in Hf; vm_compute in Hf; discriminate).
+      rewrite (field_value_cp_irrel 0 (checkpoint_hash keccak it) it f Hne).
+      rewrite (field_value_cp_irrel 0 (checkpoint_hash keccak it') it' f Hne).
+      now apply (packed_binds _ _ _ _ _ _ Hw Hw' Hc Hc' E).
+    - left. intros f Hf. unfold fval.
+      assert (f <> FCheckpoint) as Hne by (intros ->; apply mem_In in Hf; vm_compute in Hf; discriminate).
+      rewrite (field_value_cp_irrel 0 (checkpoint_hash keccak it) it f Hne).
+      rewrite (field_value_cp_irrel 0 (checkpoint_hash keccak it') it' f Hne).
+      now apply (packed_binds _ _ _ _ _ _ Hw Hw' Hc Hc' E).
+    - left. intros f Hf. unfold fval.
+      assert (f <> FCheckpoint) as Hne by (intros ->; apply mem_In in Hf; vm_compute in Hf; discriminate).
+      rewrite (field_value_cp_irrel 0 (checkpoint_hash keccak it) it f Hne).
+      rewrite (field_value_cp_irrel 0 (checkpoint_hash keccak it') it' f Hne).
+      now apply (packed_binds _ _ _ _ _ _ Hw Hw' Hc Hc' E).
+    - left. intros f Hf. unfold fval.
+      assert (f <> FCheckpoint) as Hne by (intros ->; apply mem_In in Hf; vm_compute in Hf; discriminate).
+      rewrite (field_value_cp_irrel 0 (checkpoint_hash keccak it) it f Hne).
+      rewrite (field_value_cp_irrel 0 (checkpoint_hash keccak it') it' f Hne).
+      now apply (packed_binds _ _ _ _ _ _ Hw Hw' Hc Hc' E).
+  Qed.
+
+  (** The property clause: equal signing bytes => every value handed to the bridge contract on
+      delivery is the same, and so is the deployment id wherever the scheme includes it. *)
+  Theorem signbytes_bind_delivered_fields_all : forall it it', wf it -> wf it' ->
+    kind_of it = kind_of it' -> via_bridge_contract (kind_of it) = true ->
+    sign_bytes keccak it = sign_bytes keccak it' ->
+    ((forall f, In f (delivered_fields (kind_of it)) -> fval it f = fval it' f) /\
+     (scheme_has_id (kind_of it) = true -> fval it FTurnstoneId = fval it' FTurnstoneId))
+    \/ keccak_collision keccak.
+  Proof.
+    intros it it' Hw Hw' Hk Hv E.
+    destruct (signbytes_bind_signed_fields_all it it' Hw Hw' Hk Hv E) as [B | C]; [left | now right].
+    split.
+    - intros f Hf. apply B. now apply (delivered_subset_signed_all _ Hv).
+    - intros Hs. apply B. now apply id_bound_where_scheme_has_it.
+  Qed.
+
+  (** Contrapositive reading (single- and multi-field changes): if any delivered value differs,
+      the signing bytes differ -- or a keccak collision has been exhibited. *)
+  Corollary changed_field_changes_signbytes : forall it it' f, wf it -> wf it' ->
+    kind_of it = kind_of it' -> via_bridge_contract (kind_of it) = true ->
+    In f (delivered_fields (kind_of it)) -> fval it f <> fval it' f ->
+    sign_bytes keccak it <> sign_bytes keccak it' \/ keccak_collision keccak.
+  Proof.
+    intros it it' f Hw Hw' Hk Hv Hf Hne.
+    destruct (bytes_eq_dec (sign_bytes keccak it) (sign_bytes keccak it')) as [E | N]; [| now left].
+    destruct (signbytes_bind_delivered_fields_all it it' Hw Hw' Hk Hv E) as [[B _] | C]; [| now right].
+    exfalso. apply Hne. now apply B.
+  Qed.
+
+  (** The bridge-contract upload (not presented to a remote contract): bytecode and id are bound. *)
+  Theorem upload_binds_bytecode_and_id : forall id id' est est' ts ts' rel rel' b b',
+    u64 id -> u64 id' ->
+    sign_bytes keccak (mkItem id est ts rel (UploadSmartContract b)) =
+    sign_bytes keccak (mkItem id' est' ts' rel' (UploadSmartContract b')) ->
+    (b = b' /\ id = id') \/ keccak_collision keccak.
+  Proof.
+    intros id id' est est' ts ts' rel rel' b b' Hi Hi' E. unfold sign_bytes in E.
+    apply keccak_eq in E. destruct E as [E | C]; [left | now right].
+    unfold sign_preimage, outer_preimage, upload_preimage in E. simpl in E.
+    assert (length (be 8 id) = length (be 8 id')) as Hl by now rewrite !be_length.
+    assert (length b = length b') as Hb.
+    { apply (f_equal (@length byte)) in E. rewrite !app_length, !be_length in E. lia. }
+    apply app_eq_len in E; [| exact Hb]. destruct E as [-> E]. split; [reflexivity|].
+    apply (f_equal be_val) in E. rewrite !be_val_be in E.
+    unfold u64 in *. change (256 ^ Z.of_nat 8) with two64 in E. rewrite !Z.mod_small in E by assumption. exact E.
+  Qed.
+End Binding.
+
+(** ---- what equal field values mean for the raw values (the conversions lose nothing) ---- *)
+Lemma fval_msg_id : forall it it', wf it -> wf it' -> fval it FMsgId = fval it' FMsgId -> it_id it = it_id it'.
+Proof. intros it it' [H _] [H' _] E. now apply wordv_i64_inj. Qed.
+
+Lemma fval_relayer : forall it it', fval it FRelayer = fval it' FRelayer -> it_relayer it = it_relayer it'.
+Proof. intros it it' E. now injection E. Qed.
+
+Lemma fval_estimate : forall it it', fval it FEstimate = fval it' FEstimate ->
+  eff_estimate (kind_of it) (it_estimate it) = eff_estimate (kind_of it') (it_estimate it').
+Proof. intros it it' E. now injection E. Qed.
+
+Lemma fval_turnstone : forall it it', fval it FTurnstoneId = fval it' FTurnstoneId ->
+  bytes32_right (it_turnstone it) = bytes32_right (it_turnstone it').
+Proof. intros it it' E. now injection E. Qed.
+
+Lemma act_deadline_int64 : forall a, wf_action a -> int64 (act_deadline a).
+Proof.
+  intros a H. destruct a; simpl in *; try tauto; unfold int64; pose proof two63_pos; lia.
+Qed.
+
+Lemma fval_deadline : forall it it', wf it -> wf it' -> fval it FDeadline = fval it' FDeadline ->
+  act_deadline (it_action it) = act_deadline (it_action it').
+Proof.
+  intros it it' [_ [_ [_ H]]] [_ [_ [_ H']]] E. apply wordv_int64_inj; try (now apply act_deadline_int64). exact E.
+Qed.
+
+Lemma map_VWord_inj : forall l l', map VWord l = map VWord l' -> l = l'.
+Proof.
+  induction l as [|x r IH]; intros [|y s] E; try discriminate; [reflexivity|].
+  simpl in E. injection E as -> E. f_equal. now apply IH.
+Qed.
+
+(** logic call: the whole delivered call is determined *)
+Lemma fval_logic_call : forall id est ts rel c p fs s d id' est' ts' rel' c' p' fs' s' d',
+  let it := mkItem id est ts rel (SubmitLogicCall c p fs s d) in
+  let it' := mkItem id' est' ts' rel' (SubmitLogicCall c' p' fs' s' d') in
+  wf it -> wf it' ->
+  (forall f, In f (delivered_fields KLogicCall) -> fval it f = fval it' f) ->
+  c = c' /\ p = p' /\ eff_fees fs = eff_fees fs' /\ bytes32_left s = bytes32_left s' /\ id = id' /\ d = d' /\ rel = rel'.
+Proof.
+  intros id est ts rel c p fs s d id' est' ts' rel' c' p' fs' s' d' it it' Hw Hw' B.
+  assert (forall f, mem f (delivered_fields KLogicCall) = true -> fval it f = fval it' f) as B'
+    by (intros f Hf; apply B; now apply mem_In).
+  pose proof (B' FContract eq_refl) as E1. pose proof (B' FPayload eq_refl) as E2.
+  pose proof (B' FRelayerFee eq_refl) as E3. pose proof (B' FCommunityFee eq_refl) as E4.
+  pose proof (B' FSecurityFee eq_refl) as E5. pose proof (B' FFeePayer eq_refl) as E6.
+  pose proof (B' FMsgId eq_refl) as E7. pose proof (B' FDeadline eq_refl) as E8. pose proof (B' FRelayer eq_refl) as E9.
+  apply (fval_msg_id it it' Hw Hw') in E7. apply (fval_deadline it it' Hw Hw') in E8.
+  unfold fval in *. cbn in E1, E2, E3, E4, E5, E6, E7, E8, E9.
+  injection E1 as E1. injection E2 as E2. injection E3 as E3. injection E4 as E4. injection E5 as E5.
+  injection E6 as E6. injection E9 as E9.
+  repeat split; try assumption.
+  destruct (eff_fees fs), (eff_fees fs'); simpl in *; congruence.
+Qed.
+
+(** valset update: the new validator set is determined *)
+Lemma fval_valset : forall id est ts rel vs ps i id' est' ts' rel' vs' ps' i',
+  let it := mkItem id est ts rel (UpdateValset vs ps i) in
+  let it' := mkItem id' est' ts' rel' (UpdateValset vs' ps' i') in
+  wf it -> wf it' ->
+  (forall f, In f (delivered_fields KUpdateValset) -> fval it f = fval it' f) ->
+  vs = vs' /\ ps = ps' /\ i = i' /\ rel = rel' /\ eff_estimate KUpdateValset est = eff_estimate KUpdateValset est'.
+Proof.
+  intros id est ts rel vs ps i id' est' ts' rel' vs' ps' i' it it' Hw Hw' B.
+  assert (forall f, mem f (delivered_fields KUpdateValset) = true -> fval it f = fval it' f) as B'
+    by (intros f Hf; apply B; now apply mem_In).
+  pose proof (B' FValidators eq_refl) as E1. pose proof (B' FPowers eq_refl) as E2.
+  pose proof (B' FValsetId eq_refl) as E3. pose proof (B' FRelayer eq_refl) as E4. pose proof (B' FEstimate eq_refl) as E5.
+  destruct Hw as [_ [_ [_ [_ [Hp [Hi _]]]]]]. destruct Hw' as [_ [_ [_ [_ [Hp' [Hi' _]]]]]].
+  unfold fval in *. cbn in E1, E2, E3, E4, E5.
+  injection E1 as E1. injection E2 as E2. injection E4 as E4. injection E5 as E5.
+  apply map_VWord_inj in E1. apply wordv_i64_inj in E3; try assumption.
+  repeat split; try assumption.
+  clear - E2 Hp Hp'. revert ps' E2 Hp'. induction Hp as [|x r Hx Hr IH]; intros [|y s] E Hp'; try discriminate; [reflexivity|].
+  simpl in E. injection E as E1 E2. inversion Hp'; subst. f_equal.
+  - apply wordv_i64_inj; try assumption. unfold wordv. now f_equal.
+  - now apply IH.
+Qed.
+
+(** ---- non-vacuity ---- *)
+Example wf_sample_logic_call :
+  wf (mkItem 7 0 (bytes_of_Zs [97; 98]) 11 (SubmitLogicCall 5 (bytes_of_Zs [1; 2; 3]) None (bytes_of_Zs [9]) (-1))).
+Proof. vm_compute. repeat split; try discriminate; try lia. Qed.
+
+Example sample_relayer_changes_preimage :
+  outer_preimage 0 (mkItem 7 0 [] 11 (SubmitLogicCall 5 [] None [] 1)) <>
+  outer_preimage 0 (mkItem 7 0 [] 12 (SubmitLogicCall 5 [] None [] 1)).
+Proof. vm_compute. discriminate. Qed.
+
+(** the two raw values that are deliberately indistinguishable (effective-value reading) *)
+Example estimate_zero_is_default :
+  outer_preimage 0 (mkItem 7 0 [] 11 (CompassHandover [] 1)) =
+  outer_preimage 0 (mkItem 7 Gen.C05.default_estimate [] 11 (CompassHandover [] 1)).
+Proof. vm_compute. reflexivity. Qed.
